@@ -176,12 +176,22 @@ pub fn run(env: &Env, run: &Run) -> (Stats, Coverage) {
             }
             for class in [Class::Identifier, Class::Freeform] {
                 let before = dp_cp(class, x);
-                for bit in 21..32u32 {
-                    let alias = x | (1 << bit);
+                for bit in 16..32u32 {
+                    let alias = x ^ (1 << bit);
                     let r = dp_cp(class, alias);
                     h.evaluations += 1;
-                    if !matches!(r, Ok(DP::Disallowed) | Ok(DP::Unassigned)) {
-                        h.violation("history_alias", || Case::new("alias").n(x as u64).n(alias as u64), format!("{:#x} (queried right after {:#x}) is never valid", alias, x), show_dp(&r));
+                    let ok = if alias > 0x10FFFF || char::from_u32(alias).is_none() {
+                        matches!(r, Ok(DP::Disallowed) | Ok(DP::Unassigned))
+                    } else {
+                        r.as_ref().ok() == Some(&derived_property(&env.u63, alias, class))
+                    };
+                    if !ok {
+                        h.violation(
+                            "history_alias",
+                            || Case::new("alias").n(x as u64).n(alias as u64),
+                            format!("{:#x} (queried right after {:#x}) classified as {:?}", alias, x, derived_property(&env.u63, alias, class)),
+                            show_dp(&r),
+                        );
                     }
                 }
                 let after = dp_cp(class, x);
@@ -193,7 +203,7 @@ pub fn run(env: &Env, run: &Run) -> (Stats, Coverage) {
                 }
             }
             h.states += 1;
-            h.transitions += 24;
+            h.transitions += 34;
         }
         h.add("alias_histories", seqs);
         st.merge(h);
@@ -205,7 +215,7 @@ pub fn run(env: &Env, run: &Run) -> (Stats, Coverage) {
             "reference_identifier": format!("{:?}", derived_property(&env.u63, v, Class::Identifier))}));
     }
     let cov = Coverage {
-        rule: "state = one 32-bit value; both classes and both entry points are evaluated on it and compared with (a) the RFC 8264 s.8 decision list recomputed from the pinned raw 6.3.0 UCD files by an independent reader, (b) the IANA registry row read by the harness's own splitter; plus single-threaded aliasing histories x -> x|2^b (b=21..31) -> x for scalar values x (quick: a third of them rotating with the seed + all below U+3000 and U+F900..U+10000; thorough: all); non-trivial = scalar values whose identifier value is not UNASSIGNED".into(),
+        rule: "state = one 32-bit value; both classes and both entry points are evaluated on it and compared with (a) the RFC 8264 s.8 decision list recomputed from the pinned raw 6.3.0 UCD files by an independent reader, (b) the IANA registry row read by the harness's own splitter; plus single-threaded aliasing histories x -> x xor 2^b (b=16..31) -> x for scalar values x (quick: a third of them rotating with the seed + all below U+3000 and U+F900..U+10000; thorough: all); non-trivial = scalar values whose identifier value is not UNASSIGNED".into(),
         alphabet: json!("u32"),
         bound_completed: bound,
         exhaustive,
@@ -225,8 +235,13 @@ pub fn replay(env: &Env, case: &Case) -> Vec<Violation> {
         for class in [Class::Identifier, Class::Freeform] {
             let before = dp_cp(class, x);
             let r = dp_cp(class, alias);
-            if alias != x && !matches!(r, Ok(DP::Disallowed) | Ok(DP::Unassigned)) {
-                st.violation("history_alias", || case.clone(), format!("{:#x} (queried right after {:#x}) is never valid", alias, x), show_dp(&r));
+            let ok = if alias > 0x10FFFF || char::from_u32(alias).is_none() {
+                matches!(r, Ok(DP::Disallowed) | Ok(DP::Unassigned))
+            } else {
+                r.as_ref().ok() == Some(&derived_property(&env.u63, alias, class))
+            };
+            if alias != x && !ok {
+                st.violation("history_alias", || case.clone(), format!("{:#x} (queried right after {:#x}) classified as {:?}", alias, x, derived_property(&env.u63, alias, class)), show_dp(&r));
             }
             let after = dp_cp(class, x);
             if alias == x && after != before {
